@@ -4,7 +4,7 @@
    leaves behind -- after success and after an injected failure -- is decided by the whole-IR validator of harness/c05.py. *)
 From Coq Require Import ZArith List Bool Arith.
 From GR Require Import Base.Result Adt.RefCache Adt.RefCacheProofs Adt.RetCache Adt.RetCacheProofs
-     IR.State IR.Modify IR.Edit IR.BytesProofs IR.Closed IR.Flow IR.CfgClosed.
+     IR.State IR.Modify IR.Edit IR.BytesProofs IR.Closed IR.Flow IR.CfgClosed IR.CfgClosedInsert.
 Import ListNotations.
 Open Scope Z_scope.
 
@@ -72,4 +72,65 @@ Proof.
   cbn zeta. split.
   - intros e [<-|[<-|[]]]; cbn; repeat split; eauto; try (eexists; split; [reflexivity|discriminate]); left; reflexivity.
   - cbn. eexists; split; [reflexivity|discriminate].
+Qed.
+
+(* ===== the steps of insert() between the primitives =====
+   insert() is: the guard, the return edges the patch's own `ret`s get, insert_split (split_block, split_block, remove_block: the theorems
+   above), `insert_body`, and the clean-up (join_blocks / remove_block: the theorems above). *)
+Theorem C05_insert_is_its_steps : forall s b offset repl p,
+  insert s b offset repl p =
+  let x := the_blk s b in
+  if negb (negb (bsize x =? 0) && (0 <=? offset) && (offset <=? bsize x) && (0 <=? offset + repl) && (offset + repl <=? bsize x) && (0 <=? repl))
+  then Err AssertErr
+  else match bbi x, p_blocks p, rev (p_blocks p) with
+  | Some bi, (first, _, _, _) :: _, (last, lastk, _, _) :: _ =>
+    let '(pcfg, pprox) := if bkind_eqb (bk x) KCode then update_patch_return_edges s b (p_cfg p) (p_proxies p) else (p_cfg p, p_proxies p) in
+    do '(end_block, added_ft, s1) <- insert_split s b offset repl;
+    cleanup_modified_blocks (insert_body s1 b first last lastk end_block added_ft bi offset repl (bkind_eqb (bk x) KCode) p pcfg pprox)
+                            (b :: pblock_ids p ++ [end_block])
+  | _, _, _ => Err AssertErr
+  end.
+Proof. exact insert_unfold. Qed.
+
+(* insert_body -- the return edges of the patch's calls, the stitching of the patch between the head and the tail, the edit of the
+   bytes, the patch's blocks, edges, symbols, proxies and table entries -- leaves the CFG closed: when the CFG was closed, the head and
+   the tail are blocks of the module and every edge of the assembled patch starts at a block of the patch or of the module and ends at
+   such a block or at a proxy of the patch or of the module.  (While these steps run the CFG is not closed: the edges into the patch are
+   added before its blocks are.) *)
+Theorem C05_insert_body_keeps_the_cfg_closed :
+  forall s b first last lastk end_block added_ft bi offset repl code p pcfg pprox,
+    Closed s -> live s (NB b) -> live s (NB end_block) -> In first (pblock_ids p) -> In last (pblock_ids p) ->
+    EP (fun n => is_blk n /\ (live s n \/ In (nid n) (pblock_ids p)))
+       (fun n => live s n \/ match n with NB t => In t (pblock_ids p) | NP q => In q pprox end) pcfg ->
+    Closed (insert_body s b first last lastk end_block added_ft bi offset repl code p pcfg pprox).
+Proof. exact Closed_insert_body. Qed.
+
+(* the remaining steps of insert() and delete(): the edit of the bytes moves blocks inside their interval and touches no edge, and
+   are_joinable (whose state the clean-up keeps when it refuses) only makes references direct *)
+Theorem C05_edit_byte_interval_keeps_the_cfg_closed :
+  forall s i off len c static, Closed s -> Closed (edit_byte_interval s i off len c static).
+Proof. exact Closed_edit_byte_interval. Qed.
+Theorem C05_are_joinable_keeps_the_cfg_closed : forall s a b, Closed s -> Closed (snd (are_joinable s a b)).
+Proof. exact Closed_are_joinable. Qed.
+
+(* the hypotheses are satisfiable: the two-block module of C05_closed_example, a one-block patch that branches to the tail and
+   returns to a proxy of its own *)
+Example C05_insert_body_example :
+  let s := mk_st [(0%nat, mk_blk KCode (Some 100%nat) 0 1); (1%nat, mk_blk KCode (Some 100%nat) 1 1)] [(100%nat, mk_ival 0 [144; 195] [])] [(0%nat, [0%nat; 1%nat])]
+                 (RefCache.mk_rc [] []) [mk_edge' (NB 0%nat) (NB 1%nat) ET_FALLTHROUGH; mk_edge' (NB 1%nat) (NP 7%nat) ET_RETURN] [7%nat] [] [] [] [] [] [[]; []; []] [] [[]; []; []; []] None 900 in
+  let p := mk_patch [117; 0; 195] [(200%nat, KCode, 0, 3)] [] [] [300%nat] [] [] [] [] [] in
+  let pcfg := [mk_edge' (NB 200%nat) (NB 1%nat) ET_BRANCH; mk_edge' (NB 200%nat) (NP 300%nat) ET_RETURN] in
+  Closed s /\ live s (NB 0%nat) /\ live s (NB 1%nat) /\ In 200%nat (pblock_ids p) /\
+  EP (fun n => is_blk n /\ (live s n \/ In (nid n) (pblock_ids p)))
+     (fun n => live s n \/ match n with NB t => In t (pblock_ids p) | NP q => In q [300%nat] end) pcfg /\
+  map (fun e => (src e, tgt e)) (cfg (insert_body s 0 200 200 KCode 1 (Some (mk_edge' (NB 0%nat) (NB 1%nat) ET_FALLTHROUGH)) 100 1 0 true p pcfg [300%nat]))
+  = [(NB 1%nat, NP 7%nat); (NB 0%nat, NB 200%nat); (NB 200%nat, NB 1%nat); (NB 200%nat, NB 1%nat); (NB 200%nat, NP 300%nat)].
+Proof.
+  cbv zeta. split; [|split; [|split; [|split; [|split]]]].
+  - intros e [<-|[<-|[]]]; cbn; repeat split; eauto; try (eexists; split; [reflexivity|discriminate]); left; reflexivity.
+  - cbn. eexists; split; [reflexivity|discriminate].
+  - cbn. eexists; split; [reflexivity|discriminate].
+  - cbn. left. reflexivity.
+  - intros e [<-|[<-|[]]]; cbn; repeat split; auto. left. eexists; split; [reflexivity|discriminate].
+  - vm_compute. reflexivity.
 Qed.
